@@ -1,0 +1,7 @@
+//go:build verif
+
+package coder
+
+// Read-only view of the unexported length limit for the verification harness
+// (/verif, property C07). Compiled only with -tags verif.
+const VerifStreamMessageMaxLen = messageMaxLen
